@@ -69,7 +69,10 @@ def corner_case(rng):
                                        mem_ref=ram * rng.choice([0.01, 0.08, 0.3, 1.5]), maxn=rng.choice([2, 6]))
             arrivals.setdefault(str(t), []).append(spec)
         wl = {"type": "script", "arrivals": arrivals}
-    return {"kind": "sim", "algo": algo, "params": params, "workload": wl, "_cli": rng.random() < 0.04}
+    case = {"kind": "sim", "algo": algo, "params": params, "workload": wl, "_cli": rng.random() < 0.04}
+    if not case["_cli"] and rng.random() < 0.2:
+        case["foreign_from"] = rng.choice([0, 3, 10])       # a second live simulation next to this one
+    return case
 
 
 def cases(tier, seed, shard, nshards):
